@@ -454,7 +454,36 @@ def gen_faults(rng, programs, n):
     return faults
 
 
-def gen_scenario(prop, seed, tier, faults_enabled=None, nclients=None):
+SEG_ANY = {"calc.new", "calc.read", "calc.write", "cli.run", "cli.fill", "env.mutate_config"}
+SEG_RO = {"calc.new", "calc.read", "cli.fill"}
+
+
+def add_segments(rng, schedule, programs):
+    """replace some adjacent schedule entries (X, Y), X != Y, by a line-level segment in which the two
+    operations run as baton-passing threads; at most one of the two may write files"""
+    ptr = {c: 0 for c in programs}
+    ops_at = []
+    for c in schedule:
+        ops_at.append((c, ptr[c]))
+        ptr[c] += 1
+    out, k, made = [], 0, 0
+    while k < len(schedule):
+        if k + 1 < len(schedule) and made < 3 and schedule[k] != schedule[k + 1] and rng.random() < 0.5:
+            (a, ia), (b, ib) = ops_at[k], ops_at[k + 1]
+            ka, kb = programs[a][ia]["op"], programs[b][ib]["op"]
+            if (ka in SEG_ANY and kb in SEG_RO) or (kb in SEG_ANY and ka in SEG_RO):
+                nsw = rng.choice([1, 2, 3, 5, 8, 13, 40])
+                sw = [int(10 ** rng.uniform(0, 3.6)) for _ in range(nsw)]
+                out.append({"par": [a, b], "switches": sw})
+                made += 1
+                k += 2
+                continue
+        out.append(schedule[k])
+        k += 1
+    return out
+
+
+def gen_scenario(prop, seed, tier, faults_enabled=None, nclients=None, segments_p=None):
     rng = random.Random(seed)
     big = tier == "thorough"
     if nclients is None:
@@ -483,12 +512,18 @@ def gen_scenario(prop, seed, tier, faults_enabled=None, nclients=None):
         if prop == "C19":
             w["stubs"] = gen_stub_tables(rng, n, w, rng.randint(0, 2))
         worlds[n] = w
-    if prop in ("C15", "C19", "C17") and nclients > 1 and rng.random() < 0.6:
+    segments = prop in ("C14", "C12") and nclients > 1 and rng.random() < (0.45 if segments_p is None else segments_p)
+    if segments or (prop in ("C15", "C19", "C17") and nclients > 1 and rng.random() < 0.6):
         for n in names:           # clients share one working directory: last writer wins
             if worlds[n]["datadir"] == worlds[n]["cwd"]:
                 worlds[n]["datadir"] = "d" + n.lower()
             worlds[n]["cwd"] = "ws"
     programs = {n: gen_program(rng, prop, n, worlds[n], tier) for n in names}
+    if segments:
+        for p in programs.values():     # the cwd is process-global and shared inside a segment: settings by absolute path
+            for op in p:
+                if "abs" in op:
+                    op["abs"] = True
     extra = []
     for n in names:
         w = worlds[n]
@@ -504,6 +539,8 @@ def gen_scenario(prop, seed, tier, faults_enabled=None, nclients=None):
                     extra.append({"client": n, "path": op["target"]["relpath"], "text": W.relations_text(w["static"]["system"], rng)})
     schedule = [n for n in names for _ in programs[n]]
     rng.shuffle(schedule)
+    if segments:
+        schedule = add_segments(rng, schedule, programs)
     if faults_enabled is None:
         faults_enabled = rng.random() < 0.5 and prop != "C09"
     faults = []
